@@ -5,6 +5,7 @@
 mod alloc;
 mod defects;
 mod util;
+mod subcodec;
 mod fam;
 
 #[global_allocator]
@@ -34,6 +35,21 @@ fn main() {
                 }
             }
             std::process::exit(if bad > 0 { 1 } else { 0 });
+        }
+        "sjis-table" => {
+            // prints `cp=bytes` for every code point of [lo, hi] that encoding_rs encodes losslessly
+            let lo = u32::from_str_radix(&args[2], 16).unwrap();
+            let hi = u32::from_str_radix(&args[3], 16).unwrap();
+            for cp in lo..=hi {
+                if let Some(c) = char::from_u32(cp) {
+                    let s = c.to_string();
+                    let (b, _, bad) = encoding_rs::SHIFT_JIS.encode(&s);
+                    let (back, _, bad2) = encoding_rs::SHIFT_JIS.decode(&b);
+                    if !bad && !bad2 && back == s {
+                        println!("{:04x}={}", cp, util::hex(&b));
+                    }
+                }
+            }
         }
         "gen" => {
             let seed: u64 = args[3].parse().unwrap();
